@@ -4,7 +4,7 @@
    has changed in a way the translation notices: the tie for it is re-established only by
    repairing model + proof; meanwhile the check widens its differential search. *)
 From Coq Require Import Lia ZifyBool.
-From RV.Model Require Import Base Word Bytes DivRecip DivSmall Redc.
+From RV.Model Require Import Base Word Limbs Bytes DivRecip DivSmall Redc.
 From RV.Gen Require Import Prim Scalar.
 From RV.Proofs Require Import BaseFacts.
 
@@ -344,3 +344,59 @@ Proof.
   destruct (lo128 q <=? hi128 r); cbn [obind];
   match goal with |- context [if ?c then _ else _] => destruct c end; reflexivity.
 Qed.
+
+(* ---------------- algorithms/mul.rs: unrolled addmul_1..4 ---------------- *)
+Lemma mac_inW lhs a b c : inW (fst (mac lhs a b c)).
+Proof. unfold mac. cbn [fst]. unfold lo. apply (inW_wrap (muladd2 a b c lhs)). Qed.
+Lemma mac_inW2 lhs a b c : inW lhs -> inW a -> inW b -> inW c -> inW (snd (mac lhs a b c)).
+Proof.
+  intros Hl Ha Hb Hc. unfold mac. cbn [snd]. unfold hi. apply (inW_wrap (muladd2 a b c lhs / B)).
+Qed.
+Lemma inW_0 : inW 0. Proof. unfold inW. pose proof B_pos. lia. Qed.
+
+Local Ltac lens :=
+  unfold lenZ; cbn [length];
+  repeat match goal with |- context [Z.of_nat ?n] =>
+    let v := eval vm_compute in (Z.of_nat n) in change (Z.of_nat n) with v end;
+  cbn [Z.eqb Pos.eqb negb].
+Local Ltac inw := first [assumption | apply inW_0 | apply mac_inW | apply mac_inW2; first [assumption | apply inW_0 | apply mac_inW]].
+Local Ltac norm :=
+  unfold idx, upd;
+  repeat match goal with
+         | |- context [Z.to_nat ?z] => let v := eval vm_compute in (Z.to_nat z) in change (Z.to_nat z) with v
+         | |- context [Pos.to_nat ?z] => let v := eval vm_compute in (Pos.to_nat z) in change (Pos.to_nat z) with v
+         end;
+  cbn [obind nth_error firstn skipn app fst snd].
+Local Ltac macstep :=
+  norm;
+  match goal with |- context [g_mac ?a ?b ?c ?d] => rewrite (g_mac_eq a b c d) by inw end;
+  norm.
+
+Local Ltac macd :=
+  match goal with |- context [mac ?a ?b ?c ?d] =>
+    let H1 := fresh "Hm" in let H2 := fresh "Hc" in
+    assert (H1 : inW (fst (mac a b c d))) by apply mac_inW;
+    assert (H2 : inW (snd (mac a b c d))) by (apply mac_inW2; inw);
+    destruct (mac a b c d); cbn [fst snd] in *
+  end.
+
+Lemma g_addmul_1_eq l0 a0 b0 : inW l0 -> inW a0 -> inW b0 ->
+  g_addmul_1 [l0] [a0] [b0] = Val (addmul_1 [l0] [a0] [b0]).
+Proof. intros. unfold g_addmul_1, addmul_1. lens. repeat (macstep; macd). reflexivity. Qed.
+
+Lemma g_addmul_2_eq l0 l1 a0 a1 b0 b1 :
+  inW l0 -> inW l1 -> inW a0 -> inW a1 -> inW b0 -> inW b1 ->
+  g_addmul_2 [l0; l1] [a0; a1] [b0; b1] = Val (addmul_2 [l0; l1] [a0; a1] [b0; b1]).
+Proof. intros. unfold g_addmul_2, addmul_2. lens. repeat (macstep; macd). reflexivity. Qed.
+
+Lemma g_addmul_3_eq l0 l1 l2 a0 a1 a2 b0 b1 b2 :
+  inW l0 -> inW l1 -> inW l2 -> inW a0 -> inW a1 -> inW a2 -> inW b0 -> inW b1 -> inW b2 ->
+  g_addmul_3 [l0; l1; l2] [a0; a1; a2] [b0; b1; b2] = Val (addmul_3 [l0; l1; l2] [a0; a1; a2] [b0; b1; b2]).
+Proof. intros. unfold g_addmul_3, addmul_3. lens. repeat (macstep; macd). reflexivity. Qed.
+
+Lemma g_addmul_4_eq l0 l1 l2 l3 a0 a1 a2 a3 b0 b1 b2 b3 :
+  inW l0 -> inW l1 -> inW l2 -> inW l3 -> inW a0 -> inW a1 -> inW a2 -> inW a3 ->
+  inW b0 -> inW b1 -> inW b2 -> inW b3 ->
+  g_addmul_4 [l0; l1; l2; l3] [a0; a1; a2; a3] [b0; b1; b2; b3]
+  = Val (addmul_4 [l0; l1; l2; l3] [a0; a1; a2; a3] [b0; b1; b2; b3]).
+Proof. intros. unfold g_addmul_4, addmul_4. lens. repeat (macstep; macd). reflexivity. Qed.
